@@ -7,7 +7,10 @@ by the real compressors), opened by the real library through the public API
 (harness/fmt_drv.c: geometry attributes, kdump_read of every page, of
 neighbours, of unaligned and page-crossing ranges, zero_excluded off and on),
 read by the extracted reader model from the same file bytes (engine fmt), and
-judged against what the image demands (extracted spec, engine fmt-spec)."""
+judged against what the image demands (extracted spec, engine fmt-spec).
+LKCD additionally white-box (harness/lkidx_drv.c includes lkcd.c): after every
+request the library's real PFN block lists are printed and compared with the
+block lists of the extracted Fmt/LkcdIndexModel.v (engine fmt-lkidx)."""
 import base64
 import os
 
@@ -137,6 +140,10 @@ def check(run):
     exe = run.need_cc("fmt_drv", "fmt_drv.c", sources=core.lib_sources(), sanitize=True)
     if exe is None:
         return
+    exe_idx = run.need_cc("lkidx_drv", "lkidx_drv.c", sources=core.lib_sources(exclude=("lkcd.c",)),
+                          sanitize=True)
+    if exe_idx is None:
+        return
     quick = run.tier == "quick"
     if run.replay_path:
         rp = core.json.load(open(run.replay_path))["replay"]
@@ -155,9 +162,11 @@ def check(run):
         print("model:          " + res["model"][0])
         print("spec:           " + res["spec"][0])
         compare(run, exe, [line], [{"key": "replay", "image": img, "pfns": []}], res)
+        if " F=lkcd " in line:
+            index_tie(run, exe_idx, [line], [{"key": "replay", "image": img, "pfns": []}], show=True)
         return
-    plan = [("dd", 120 if quick else 2000), ("elf", 100 if quick else 2000),
-            ("sadump", 80 if quick else 1200), ("lkcd", 100 if quick else 2000),
+    plan = [("dd", 110 if quick else 2000), ("elf", 90 if quick else 2000),
+            ("sadump", 70 if quick else 1200), ("lkcd", 90 if quick else 2000),
             ("s390", 40 if quick else 400)]
     only = os.environ.get("VERIF_C01_FORMATS")
     if only:
@@ -180,6 +189,8 @@ def check(run):
                 infos.append(i)
             res = run_lines(run, exe, lines)
             compare(run, exe, lines, infos, res)
+            if fmt == "lkcd":
+                index_tie(run, exe_idx, lines, infos)
             done += m
             if len(run.violations) > 3:
                 return
@@ -229,6 +240,44 @@ def run_lines(run, exe, lines, jobs=4):
         list(ex.map(enc, range(jobs)))
         list(ex.map(reader, [(j, k) for j in range(jobs) for k in ("impl", "model", "spec")]))
     return res
+
+
+def index_tie(run, exe_idx, lines, infos, show=False):
+    """White-box: the PFN block lists of lkcd.c after every request vs. those of the
+    block-level model, on the dump files that run_lines has just written."""
+    from concurrent.futures import ThreadPoolExecutor
+    d = os.path.join(run.work, "lkidx")
+    os.makedirs(d, exist_ok=True)
+    cf = os.path.join(d, "fmt-cases.txt")
+    with open(cf, "w") as f:
+        for l in lines:
+            f.write(l + "\n")
+    with ThreadPoolExecutor(max_workers=2) as ex:
+        fi = ex.submit(core.run_impl_lines, exe_idx, d, lines)
+        fm = ex.submit(run_engine, "fmt-lkidx", cf)
+        (impl, crashes), model = fi.result(), fm.result()
+    if show:
+        print("index (library): " + impl[0])
+        print("index (model):   " + model[0])
+    for i, line in enumerate(lines):
+        info = infos[i]
+        a = impl[i] if i < len(impl) else "MISSING"
+        b = model[i] if i < len(model) else "MISSING"
+        run.count("lkcd index dumps compared", a.count("|I:"))
+        if i in crashes:
+            rc, err = crashes[i]
+            report(run, line, info, "impl", "the library crashes / sanitizer report (exit %s) reading a %s dump"
+                   % (rc, info["key"]), {"impl_exit": rc, "stderr_tail": err[-1500:]}, True,
+                   "fmt crash lkcd " + err[-200:])
+            continue
+        dd = first_diff(a, b)
+        if dd is None:
+            continue
+        k, got, want = dd
+        what = ("%s: the PFN index of lkcd.c differs from the block-level model after request %s: library %s, model %s"
+                % (info["key"], describe(line, k, info), (got or "")[:300], (want or "")[:300]))
+        report(run, minimise(line, k), info, "tie", what, {"implementation": got, "model": want},
+               False, "fmt lkidx")
 
 
 def compare(run, exe, lines, infos, res):
